@@ -56,7 +56,9 @@ class C06(XsProp):
             tot = 8 * nb
             s = rng.choice([0, 0, rng.randint(0, tot)])
             e = rng.choice([tot, tot, rng.randint(s, tot)])
-            steps = ['xs limits 6000 300 - | input %s %d %d | cursor | stack' % (data.hex() or '-', s, e)]
+            # one case in six runs under a tight stack limit: a read refused by the limit must not move either
+            slim = rng.choice(['300'] * 5 + [str(rng.randint(0, 3))])
+            steps = ['xs limits 6000 %s - | input %s %d %d | cursor | stack' % (slim, data.hex() or '-', s, e)]
             remain_guess = e - s
             for _ in range(rng.randint(4, 25)):
                 k = rng.random()
